@@ -288,6 +288,12 @@ func (rb *RingBuffer) DiscardStride(stride uint64) (err error) {
 	if newRp%stride > 0 {
 		newRp -= newRp % stride
 	}
+	// Never move the read pointer backwards: that would hand already-consumed bytes to the
+	// reader again (and make the buffer look over-full to the writer).
+	if r := rb.desc.readPointer; newRp < r {
+		return fmt.Errorf("DiscardStride(%d): no stride boundary in the %d buffered bytes",
+			stride, rb.desc.writePointer-r)
+	}
 	rb.desc.readPointer = newRp
 	return nil
 }
